@@ -1,16 +1,28 @@
 /-
-  Obligation: which properties the encoder writes (always / conditionally), which the decoder
-  reads and with which reader primitive (null-tolerant or not), and that every public
-  (de)serialization entry point funnels into the same functions.
+  Obligation: the flattened schemas of the real decoder and encoder (every property path with the
+  reader primitive used for it — null-tolerant or not — and every property the encoder writes,
+  always or conditionally), and that every public (de)serialization entry point, in both build
+  variants, funnels into the same functions.
 -/
 import LDEval.Generated.Facts
 import LDEval.Obligations.Expected
 
 namespace LD.Obligations
 
-theorem encoder_props : Generated.encoderProps = Expected.encoderProps := rfl
-theorem decoder_props : Generated.decoderProps = Expected.decoderProps := rfl
-theorem decoder_openers : Generated.decoderOpeners = Expected.decoderOpeners := rfl
+theorem flag_decoder : Generated.flagDecoder = Expected.flagDecoder := rfl
+theorem flag_decoder_known : Generated.flagDecoderKnown = Expected.flagDecoderKnown := rfl
+theorem segment_decoder : Generated.segmentDecoder = Expected.segmentDecoder := rfl
+theorem segment_decoder_known : Generated.segmentDecoderKnown = Expected.segmentDecoderKnown := rfl
+theorem flag_encoder : Generated.flagEncoder = Expected.flagEncoder := rfl
+theorem flag_encoder_always : Generated.flagEncoderAlways = Expected.flagEncoderAlways := rfl
+theorem segment_encoder : Generated.segmentEncoder = Expected.segmentEncoder := rfl
+theorem segment_encoder_always : Generated.segmentEncoderAlways = Expected.segmentEncoderAlways := rfl
 theorem entry_points : Generated.entryPoints = Expected.entryPoints := rfl
+
+/-- Every unmarshalling entry point reaches the one decoder and preprocesses; every marshalling
+entry point reaches the one encoder. -/
+theorem entry_points_funnel : ∀ p ∈ Generated.entryPoints,
+    p.2 = "PreprocessFlag readFeatureFlag" ∨ p.2 = "PreprocessSegment readSegment" ∨
+    p.2 = "marshalFeatureFlagToWriter" ∨ p.2 = "marshalSegmentToWriter" := by decide
 
 end LD.Obligations
